@@ -90,9 +90,10 @@ pub struct TyEntry {
 pub fn try_json_roundtrip<T: Serialize + DeserializeOwned>(bytes: &[u8]) -> Result<bool, String> {
     let r = catch_unwind(AssertUnwindSafe(|| -> Result<bool, String> {
         let v: T = bincode::deserialize(bytes).map_err(|e| format!("honest bytes do not decode: {}", e))?;
-        let js = serde_json::to_vec(&v).map_err(|e| format!("to JSON: {}", e))?;
-        let back: T = serde_json::from_slice(&js).map_err(|e| format!("from JSON: {}", e))?;
-        let again = bincode::serialize(&back).map_err(|e| format!("re-encode: {}", e))?;
+        // bincode from a reader (nothing to borrow from) reads the same value as from the slice
+        let v2: T = bincode::deserialize_from(crate::wire::Dribble::new(bytes)).map_err(|e| format!("bincode from a reader: {} (the slice decodes)", e))?;
+        if bincode::serialize(&v2).map_err(|e| format!("re-encode: {}", e))? != bytes { return Err("bincode from a reader gives a different value than from the slice".into()); }
+        let again = crate::wire::json_roundtrip_all(&v)?;
         Ok(again == bytes)
     }));
     match r { Ok(x) => x, Err(_) => Err("panic".into()) }
